@@ -353,7 +353,7 @@ func fsFamily(w *mon.W) {
 	// download: files under root/a whose names contain bytes that mean something in a URL
 	// or are control bytes; the download handler (the last engine) must serve exactly that
 	// file for the percent-encoded name — ctx.File takes a file path, not a request target
-	oddNames := []string{"t\tb.txt", "d\x7fe.txt", "n\nl.txt", "q?r.txt", "h#i.txt", "p%41.txt", "s p.txt", "plus+x.txt", "semi;x.txt"}
+	oddNames := []string{"t\tb.txt", "d\x7fe.txt", "n\nl.txt", "q?r.txt", "h#i.txt", "p%41.txt", "s p.txt", "plus+x.txt", "semi;x.txt", "p%41q%42.txt", "a?b#c%d.txt", "two\ttabs\there.txt"}
 	for i, n := range oddNames {
 		os.WriteFile(filepath.Join(root, "a", n), []byte(fmt.Sprintf("ODD-NAME-%d", i)), 0o644)
 	}
@@ -413,7 +413,11 @@ func fsFamily(w *mon.W) {
 			t := sb.String()
 			if r.Chance(6) {
 				// doubly encoded segments (what survives the first decoding is again an escape)
-				t = "/" + strings.Repeat(r.Str("%252e%252e%252f", "%252E%252E%252F", "..%252f", "%252e%252e/"), 1+r.Intn(3)) + r.Str("c.txt", "secret%252fc.txt", "a/f.txt")
+				t = "/" + strings.Repeat(r.Str("%252e%252e%252f", "%252E%252E%252F", "..%252f", "%252e%252e/"), 1+r.Intn(6)) + r.Str("c.txt", "secret%252fc.txt", "a/f.txt")
+				if r.Chance(3) {
+					// … behind a first segment that already holds an escape-like byte
+					t = "/" + r.Str("x%2541", "p%2525", "q%253F") + t[1:]
+				}
 			}
 			targets = append(targets, t)
 			if ei == 4 {
